@@ -341,6 +341,11 @@ def _judge(case, res, exc, n_models, strategy=None):
     if kind == "value":
         reps = [r for r in _f11_repaired(case, expr) if r != expr]
         if any(S.check_estimand(g, jt, rep, case.get("seed", 0), n_models=n_models, cond=cond) is None for rep in reps):
+            if expr[0] == "frac" and not isinstance(expr[1], str) and expr[1][0] == "P":
+                # F11 lives in Expression.conditional (sums / products); for a single term Probability.conditional is used,
+                # which leaves the intervention subscripts alone: a wrong normalisation of a single term is NOT F11
+                return msg + (" [numerator right, a single P[...](...) term; its normalisation also sums over names that occur "
+                              "only as subscripts -- Probability.conditional does not do that]"), "normalisation:single-term"
             return msg + " [numerator right; only the normalisation of Expression.conditional is wrong: F11]", "F11"
     if kind == "value" and not isinstance(expr, str) and expr[0] == "frac":
         shared = {int(var[1]) for var, _ in case["outcomes"]} & {int(var[1]) for var, _ in case["conditions"]}
@@ -400,13 +405,14 @@ def _evaluate(case, n_models=8, with_unpatched=True, all_verdicts=False):
             "verdicts": [[json.dumps(a)[:160], list(s_) if s_ is not None else None, k_] for a, s_, k_ in verdicts]}
 
 
-COARSE = ("F11", "inherited", "reassociation", "exchange:polarity", "exchange:conditions", "exchange:separation",
+COARSE = ("F11", "normalisation:single-term", "inherited", "reassociation", "exchange:polarity", "exchange:conditions", "exchange:separation",
           "conditional:shared-base")
 
 
 def _coarse_key(case, r):
     """finding key of the failures that are explained by an identified broken step / another listed defect"""
-    if r["kind"] in ("F11", "reassociation", "conditional:shared-base") or r["kind"].startswith("exchange:"):
+    if r["kind"] in ("F11", "normalisation:single-term", "reassociation", "conditional:shared-base") or \
+            r["kind"].startswith("exchange:"):
         return json.dumps([r["kind"]])
     if r["kind"] == "inherited":
         why, detail = _explain(case, r["strategy"], 8)
